@@ -10,7 +10,16 @@ import (
 
 // Graph node types: pointer, slice, map, array and interface slots that can point anywhere.
 type G1 struct {
-	Name    string
+	Name string
+	// members that take a reference slot without being pointers: empty anonymous structs (written as empty maps)
+	// and byte arrays with typed destinations; they come before the pointer members so that every later
+	// back-reference depends on both sides counting them alike
+	Set     map[string]struct{}
+	Es      []struct{}
+	E       struct{}
+	Tag4    [4]byte
+	Tags    [][2]byte
+	PT      *[8]byte
 	A       *G1
 	B       *G2
 	Kids    []*G1
@@ -88,6 +97,22 @@ func GenGraph(rt *rapid.T, acyclic bool) *Graph {
 	}
 	clutterTypes := ClutterTypes()
 	for i, x := range g1 {
+		if rapid.IntRange(0, 2).Draw(rt, "fillers") > 0 {
+			if rapid.Bool().Draw(rt, "set") {
+				x.Set = map[string]struct{}{}
+				for k := rapid.IntRange(0, 2).Draw(rt, "setn"); k > 0; k-- {
+					x.Set[rapid.SampledFrom(names).Draw(rt, "setk")] = struct{}{}
+				}
+			}
+			x.Es = make([]struct{}, rapid.IntRange(0, 2).Draw(rt, "es"))
+			x.Tag4 = [4]byte{byte(i), 1, 2, 3}
+			for k := rapid.IntRange(0, 2).Draw(rt, "tags"); k > 0; k-- {
+				x.Tags = append(x.Tags, [2]byte{byte(k), byte(i)})
+			}
+			if rapid.Bool().Draw(rt, "pt") {
+				x.PT = &[8]byte{1, 2, 3, 4, 5, 6, 7, byte(i)}
+			}
+		}
 		x.A = pick1(i, "A")
 		x.B = pick2(-1, "B")
 		for k := rapid.IntRange(0, 3).Draw(rt, "kids"); k > 0; k-- {
